@@ -200,6 +200,9 @@ func policyFor(k, caseIdx int) pdfsyn.Policy {
 	if (k+caseIdx)%7 == 0 {
 		p.Str = pdfsyn.StrMixed
 	}
+	// the raw CR / CR LF spelling of LF inside literal strings (trigger of a
+	// listed finding while it is open) is confined to a quarter of the cases
+	p.RawEOL = caseIdx%4 == 2
 	return p
 }
 
@@ -236,6 +239,37 @@ func countNodes(o Obj) int64 {
 		n += countNodes(e.Val)
 	}
 	return n
+}
+
+// failure is one failed oracle (not yet reported).
+type failure struct {
+	class, what string
+}
+
+// findingRawEOL: see /verif/known_findings.d/C06.json. Trigger feature: a data
+// LF inside a literal string spelled as an unescaped CR or CR LF.
+const findingRawEOL = "C06-raw-eol-in-literal-string"
+
+// report applies the attribution protocol: a failure of a spelling that
+// carries the trigger feature of the listed finding is re-evaluated with
+// exactly that feature neutralised (same PRNG stream, so every other choice is
+// unchanged). Only if the neutralised spelling passes is the failure
+// attributed to the finding; otherwise the neutralised case is reported.
+func report(c *fw.Ctx, id string, f *failure, detail map[string]any, hadTrigger bool, neutral func() (*failure, map[string]any)) {
+	if f == nil {
+		return
+	}
+	if hadTrigger && c.FindingOpen(findingRawEOL) {
+		nf, nd := neutral()
+		if nf == nil {
+			c.Fail(findingRawEOL, f.class, id, f.what, detail)
+			return
+		}
+		nd["neutralised"] = findingRawEOL
+		c.Fail("", nf.class, id, nf.what, nd)
+		return
+	}
+	c.Fail("", f.class, id, f.what, detail)
 }
 
 // ---------------------------------------------------------------------------
@@ -317,6 +351,74 @@ func (cc coreCase) describe() string {
 	return sb.String()
 }
 
+func spellCore(cc coreCase, p pdfsyn.Policy, r *rand.Rand) (*pdfsyn.Writer, []byte) {
+	w := pdfsyn.NewWriter(p, r)
+	switch cc.form {
+	case "single", "sequence":
+		for _, t := range cc.trees {
+			w.Obj(t)
+		}
+	default:
+		w.IndirectObject(cc.num, cc.gen, cc.trees[0])
+	}
+	if p.WS == pdfsyn.WSMaximal {
+		w.Raw([]byte(" \r\n"), false)
+	}
+	return w, append([]byte{}, w.Bytes()...)
+}
+
+// evalCore parses one spelling with core.Parser and compares.
+func evalCore(c *fw.Ctx, id string, cc coreCase, p pdfsyn.Policy, data []byte, detail map[string]any, count bool) (f *failure) {
+	class := "core-" + cc.form + "/" + pdfsyn.WSNames[p.WS]
+	c.Guard(class, id, detail, func() {
+		ps := core.NewParser(bytes.NewReader(data))
+		switch cc.form {
+		case "single", "sequence":
+			for n, t := range cc.trees {
+				got, err := ps.ParseObject()
+				if err != nil {
+					f = &failure{class + "/error", fmt.Sprintf("core.ParseObject: error %q on object %d of a legal spelling (%s): %s", err, n, p, fw.OneLine(string(data), 160))}
+					return
+				}
+				if d := diff(t, got, fmt.Sprintf("obj%d", n)); d != "" {
+					f = &failure{class + "/mismatch", fmt.Sprintf("core.ParseObject: %s (%s): %s", d, p, fw.OneLine(string(data), 160))}
+					return
+				}
+				if count {
+					c.Count("core_nodes_compared", countNodes(t))
+				}
+			}
+			// everything must have been consumed: the next object is EOF
+			got, err := ps.ParseObject()
+			if err != io.EOF {
+				f = &failure{class + "/trailing", fmt.Sprintf("core.ParseObject: after the %d written objects the parser returns (%v, %v) instead of EOF (%s): %s", len(cc.trees), got, err, p, fw.OneLine(string(data), 160))}
+			}
+		default:
+			ind, err := ps.ParseIndirectObject()
+			if err != nil {
+				f = &failure{class + "/error", fmt.Sprintf("core.ParseIndirectObject: error %q on a legal spelling (%s): %s", err, p, fw.OneLine(string(data), 160))}
+				return
+			}
+			if ind.Ref.Number != cc.num || ind.Ref.Generation != cc.gen {
+				f = &failure{class + "/mismatch", fmt.Sprintf("core.ParseIndirectObject: object id %d %d, want %d %d", ind.Ref.Number, ind.Ref.Generation, cc.num, cc.gen)}
+				return
+			}
+			if d := diff(cc.trees[0], ind.Object, "obj"); d != "" {
+				f = &failure{class + "/mismatch", fmt.Sprintf("core.ParseIndirectObject: %s (%s): %s", d, p, fw.OneLine(string(data), 160))}
+				return
+			}
+			if count {
+				c.Count("core_nodes_compared", countNodes(cc.trees[0]))
+			}
+		}
+	})
+	return f
+}
+
+func coreDetail(cc coreCase, p pdfsyn.Policy, desc string, data []byte) map[string]any {
+	return map[string]any{"form": cc.form, "policy": p.String(), "tree": desc, "input": string(data), "input_hex": fmt.Sprintf("%x", short(data))}
+}
+
 func runCoreCase(c *fw.Ctx, id string, i int) {
 	cc := genCoreCase(c.Rand("core", i, "tree"), i)
 	desc := cc.describe()
@@ -333,69 +435,96 @@ func runCoreCase(c *fw.Ctx, id string, i int) {
 	c.Seen("tree_depth", fmt.Sprint(maxDepth))
 	for k := 0; k < nPolicies; k++ {
 		p := policyFor(k, i)
-		w := pdfsyn.NewWriter(p, c.Rand("core", i, "spell", k))
-		switch cc.form {
-		case "single", "sequence":
-			for _, t := range cc.trees {
-				w.Obj(t)
-			}
-		default:
-			w.IndirectObject(cc.num, cc.gen, cc.trees[0])
-		}
-		if p.WS == pdfsyn.WSMaximal {
-			w.Raw([]byte(" \r\n"), false)
-		}
-		data := append([]byte{}, w.Bytes()...)
+		w, data := spellCore(cc, p, c.Rand("core", i, "spell", k))
 		c.Case(desc+"|"+p.String(), nontriv)
 		recordFeatures(c, w, p)
 		if k == 0 {
 			c.Sample(map[string]any{"id": id, "form": cc.form, "policy": p.String(), "bytes": string(short(data))})
 		}
-		detail := map[string]any{"form": cc.form, "policy": p.String(), "tree": desc, "input": string(data), "input_hex": fmt.Sprintf("%x", short(data))}
-		class := "core-" + cc.form + "/" + pdfsyn.WSNames[p.WS]
-		c.Guard(class, id, detail, func() {
-			ps := core.NewParser(bytes.NewReader(data))
-			switch cc.form {
-			case "single", "sequence":
-				for n, t := range cc.trees {
-					got, err := ps.ParseObject()
-					if err != nil {
-						c.Fail("", class+"/error", id, fmt.Sprintf("core.ParseObject: error %q on object %d of a legal spelling (%s): %s", err, n, p, fw.OneLine(string(data), 160)), detail)
-						return
-					}
-					if d := diff(t, got, fmt.Sprintf("obj%d", n)); d != "" {
-						c.Fail("", class+"/mismatch", id, fmt.Sprintf("core.ParseObject: %s (%s): %s", d, p, fw.OneLine(string(data), 160)), detail)
-						return
-					}
-					c.Count("core_nodes_compared", countNodes(t))
-				}
-				// everything must have been consumed: the next object is EOF
-				got, err := ps.ParseObject()
-				if err != io.EOF {
-					c.Fail("", class+"/trailing", id, fmt.Sprintf("core.ParseObject: after the %d written objects the parser returns (%v, %v) instead of EOF (%s): %s", len(cc.trees), got, err, p, fw.OneLine(string(data), 160)), detail)
-				}
-			default:
-				ind, err := ps.ParseIndirectObject()
-				if err != nil {
-					c.Fail("", class+"/error", id, fmt.Sprintf("core.ParseIndirectObject: error %q on a legal spelling (%s): %s", err, p, fw.OneLine(string(data), 160)), detail)
-					return
-				}
-				if ind.Ref.Number != cc.num || ind.Ref.Generation != cc.gen {
-					c.Fail("", class+"/mismatch", id, fmt.Sprintf("core.ParseIndirectObject: object id %d %d, want %d %d", ind.Ref.Number, ind.Ref.Generation, cc.num, cc.gen), detail)
-					return
-				}
-				if d := diff(cc.trees[0], ind.Object, "obj"); d != "" {
-					c.Fail("", class+"/mismatch", id, fmt.Sprintf("core.ParseIndirectObject: %s (%s): %s", d, p, fw.OneLine(string(data), 160)), detail)
-					return
-				}
-				c.Count("core_nodes_compared", countNodes(cc.trees[0]))
-			}
+		detail := coreDetail(cc, p, desc, data)
+		f := evalCore(c, id, cc, p, data, detail, true)
+		report(c, id, f, detail, w.Features["raw-eol-cr-in-string"] > 0, func() (*failure, map[string]any) {
+			np := p
+			np.NoRawEOL = true
+			_, nd := spellCore(cc, np, c.Rand("core", i, "spell", k))
+			ndet := coreDetail(cc, np, desc, nd)
+			return evalCore(c, id, cc, np, nd, ndet, false), ndet
 		})
 	}
 }
 
 // ---------------------------------------------------------------------------
 // content-stream programs
+
+func spellProgram(prog []pdfsyn.Op, p pdfsyn.Policy, r *rand.Rand) (*pdfsyn.Writer, [][2]int, []byte) {
+	w := pdfsyn.NewWriter(p, r)
+	spans := w.Program(prog)
+	return w, spans, append([]byte{}, w.Bytes()...)
+}
+
+func evalProgram(c *fw.Ctx, id string, prog []pdfsyn.Op, p pdfsyn.Policy, spans [][2]int, data []byte, detail map[string]any, count bool) (f *failure) {
+	class := "cs-program/" + pdfsyn.WSNames[p.WS]
+	c.Guard(class, id, detail, func() {
+		ops, err := contentstream.NewParser(data).Parse()
+		if err != nil {
+			f = &failure{class + "/error", fmt.Sprintf("contentstream.Parse: error %q on a legal program (%s): %s", err, p, fw.OneLine(string(data), 160))}
+			return
+		}
+		// grouping: same operators in order, each with exactly its operands
+		for n := 0; n < len(prog) && n < len(ops); n++ {
+			if ops[n].Operator != prog[n].Operator {
+				f = &failure{class + "/grouping", fmt.Sprintf("contentstream.Parse: operation %d is %q with %d operands, want %q with %d operands (%s): %s",
+					n, ops[n].Operator, len(ops[n].Operands), prog[n].Operator, len(prog[n].Operands), p, fw.OneLine(string(data), 160))}
+				return
+			}
+			if len(ops[n].Operands) != len(prog[n].Operands) {
+				f = &failure{class + "/grouping", fmt.Sprintf("contentstream.Parse: operation %d (%s) has %d operands %v, want %d (%s): %s",
+					n, prog[n].Operator, len(ops[n].Operands), ops[n].Operands, len(prog[n].Operands), p, fw.OneLine(string(data), 160))}
+				return
+			}
+			for a := range prog[n].Operands {
+				if d := diff(prog[n].Operands[a], ops[n].Operands[a], fmt.Sprintf("op%d(%s).operand%d", n, prog[n].Operator, a)); d != "" {
+					f = &failure{class + "/operand", fmt.Sprintf("contentstream.Parse: %s (%s): %s", d, p, fw.OneLine(string(data), 160))}
+					return
+				}
+				if count {
+					c.Count("cs_operand_nodes_compared", countNodes(prog[n].Operands[a]))
+				}
+			}
+		}
+		if len(ops) != len(prog) {
+			f = &failure{class + "/grouping", fmt.Sprintf("contentstream.Parse: %d operations, want %d (%s): %s", len(ops), len(prog), p, fw.OneLine(string(data), 160))}
+			return
+		}
+		if count {
+			c.Count("cs_operations_compared", int64(len(prog)))
+		}
+		// differential: the operand bytes of each operation, read by core.Parser
+		for n, sp := range spans {
+			if sp[0] == sp[1] {
+				continue
+			}
+			wrapped := append(append([]byte("["), data[sp[0]:sp[1]]...), ']')
+			cobj, cerr := core.NewParser(bytes.NewReader(wrapped)).ParseObject()
+			if cerr != nil {
+				continue // "every operand both accept": core's own failures are reported by the core cases
+			}
+			arr, ok := cobj.(core.Array)
+			if !ok {
+				continue
+			}
+			if d := coreDiff(arr, core.Array(ops[n].Operands), fmt.Sprintf("op%d(%s)", n, prog[n].Operator)); d != "" {
+				detail["operand_bytes"] = string(data[sp[0]:sp[1]])
+				f = &failure{"differential/" + pdfsyn.WSNames[p.WS], fmt.Sprintf("parsers disagree on operand bytes %q: %s", fw.OneLine(string(data[sp[0]:sp[1]]), 120), d)}
+				return
+			}
+			if count {
+				c.Count("differential_operand_lists_compared", 1)
+			}
+		}
+	})
+	return f
+}
 
 func runProgramCase(c *fw.Ctx, id string, i int) {
 	r := c.Rand("prog", i, "ops")
@@ -412,70 +541,25 @@ func runProgramCase(c *fw.Ctx, id string, i int) {
 			seenKinds(c, a)
 		}
 	}
+	mkDetail := func(p pdfsyn.Policy, data []byte) map[string]any {
+		return map[string]any{"policy": p.String(), "program": desc, "input": string(data), "input_hex": fmt.Sprintf("%x", short(data))}
+	}
 	for k := 0; k < nPolicies; k++ {
 		p := policyFor(k, i)
-		w := pdfsyn.NewWriter(p, c.Rand("prog", i, "spell", k))
-		spans := w.Program(prog)
-		data := append([]byte{}, w.Bytes()...)
+		w, spans, data := spellProgram(prog, p, c.Rand("prog", i, "spell", k))
 		c.Case(desc+"|"+p.String(), nontriv)
 		recordFeatures(c, w, p)
 		if k == 3 {
 			c.Sample(map[string]any{"id": id, "operations": len(prog), "policy": p.String(), "bytes": string(short(data))})
 		}
-		detail := map[string]any{"policy": p.String(), "program": desc, "input": string(data), "input_hex": fmt.Sprintf("%x", short(data))}
-		class := "cs-program/" + pdfsyn.WSNames[p.WS]
-		c.Guard(class, id, detail, func() {
-			ops, err := contentstream.NewParser(data).Parse()
-			if err != nil {
-				c.Fail("", class+"/error", id, fmt.Sprintf("contentstream.Parse: error %q on a legal program (%s): %s", err, p, fw.OneLine(string(data), 160)), detail)
-				return
-			}
-			// grouping: same operators in order, each with exactly its operands
-			for n := 0; n < len(prog) && n < len(ops); n++ {
-				if ops[n].Operator != prog[n].Operator {
-					c.Fail("", class+"/grouping", id, fmt.Sprintf("contentstream.Parse: operation %d is %q with %d operands, want %q with %d operands (%s): %s",
-						n, ops[n].Operator, len(ops[n].Operands), prog[n].Operator, len(prog[n].Operands), p, fw.OneLine(string(data), 160)), detail)
-					return
-				}
-				if len(ops[n].Operands) != len(prog[n].Operands) {
-					c.Fail("", class+"/grouping", id, fmt.Sprintf("contentstream.Parse: operation %d (%s) has %d operands %v, want %d (%s): %s",
-						n, prog[n].Operator, len(ops[n].Operands), ops[n].Operands, len(prog[n].Operands), p, fw.OneLine(string(data), 160)), detail)
-					return
-				}
-				for a := range prog[n].Operands {
-					if d := diff(prog[n].Operands[a], ops[n].Operands[a], fmt.Sprintf("op%d(%s).operand%d", n, prog[n].Operator, a)); d != "" {
-						c.Fail("", class+"/operand", id, fmt.Sprintf("contentstream.Parse: %s (%s): %s", d, p, fw.OneLine(string(data), 160)), detail)
-						return
-					}
-					c.Count("cs_operand_nodes_compared", countNodes(prog[n].Operands[a]))
-				}
-			}
-			if len(ops) != len(prog) {
-				c.Fail("", class+"/grouping", id, fmt.Sprintf("contentstream.Parse: %d operations, want %d (%s): %s", len(ops), len(prog), p, fw.OneLine(string(data), 160)), detail)
-				return
-			}
-			c.Count("cs_operations_compared", int64(len(prog)))
-			// differential: the operand bytes of each operation, read by core.Parser
-			for n, sp := range spans {
-				if sp[0] == sp[1] {
-					continue
-				}
-				wrapped := append(append([]byte("["), data[sp[0]:sp[1]]...), ']')
-				cobj, cerr := core.NewParser(bytes.NewReader(wrapped)).ParseObject()
-				if cerr != nil {
-					continue // "every operand both accept": core's own failures are reported by the core cases
-				}
-				arr, ok := cobj.(core.Array)
-				if !ok {
-					continue
-				}
-				if d := coreDiff(arr, core.Array(ops[n].Operands), fmt.Sprintf("op%d(%s)", n, prog[n].Operator)); d != "" {
-					detail["operand_bytes"] = string(data[sp[0]:sp[1]])
-					c.Fail("", "differential/"+pdfsyn.WSNames[p.WS], id, fmt.Sprintf("parsers disagree on operand bytes %q: %s", fw.OneLine(string(data[sp[0]:sp[1]]), 120), d), detail)
-					return
-				}
-				c.Count("differential_operand_lists_compared", 1)
-			}
+		detail := mkDetail(p, data)
+		f := evalProgram(c, id, prog, p, spans, data, detail, true)
+		report(c, id, f, detail, w.Features["raw-eol-cr-in-string"] > 0, func() (*failure, map[string]any) {
+			np := p
+			np.NoRawEOL = true
+			_, nsp, nd := spellProgram(prog, np, c.Rand("prog", i, "spell", k))
+			ndet := mkDetail(np, nd)
+			return evalProgram(c, id, prog, np, nsp, nd, ndet, false), ndet
 		})
 	}
 }
@@ -590,7 +674,7 @@ func Run(c *fw.Ctx) {
 
 	runWitnesses(c)
 
-	n := c.N(2000, 100000) // x 12 policies
+	n := c.N(15000, 300000) // x 12 policies
 	c.Parallel(n, func(i int) {
 		id := fmt.Sprintf("core:%d", i)
 		if !c.Want(id) {
@@ -598,7 +682,7 @@ func Run(c *fw.Ctx) {
 		}
 		runCoreCase(c, id, i)
 	})
-	m := c.N(500, 25000) // x 12 policies
+	m := c.N(4000, 80000) // x 12 policies
 	c.Parallel(m, func(i int) {
 		id := fmt.Sprintf("prog:%d", i)
 		if !c.Want(id) {
